@@ -399,7 +399,186 @@ fn memory_part(out: &mut Out, rng: &mut Rng, thorough: bool) {
 	}
 }
 
+// --------------------------------------------------------------------------- detection that selects nothing
+
+/// A first document, then `body` repeated up to `total` bytes; `pos` is how
+/// much xt consumed.
+struct HeadThenRepeat {
+	head: Vec<u8>,
+	body: Vec<u8>,
+	total: usize,
+	pos: usize,
+	packet: usize,
+}
+
+impl std::io::Read for HeadThenRepeat {
+	fn read(&mut self, buf: &mut [u8]) -> std::io::Result<usize> {
+		let lim = ((self.pos / self.packet + 1) * self.packet).min(self.total);
+		let n = buf.len().min(lim - self.pos);
+		for (i, b) in buf[..n].iter_mut().enumerate() {
+			let at = self.pos + i;
+			*b = if at < self.head.len() { self.head[at] } else { self.body[(at - self.head.len()) % self.body.len()] };
+		}
+		self.pos += n;
+		Ok(n)
+	}
+}
+
+/// Detection on a long reader stream whose first document no trial accepts (a
+/// YAML scalar document closed by the next `---`): what xt consumes and holds
+/// before it gives up must not depend on how long the stream is ("with or
+/// without format detection"; the TOML trial reads a bounded prefix).
+fn undetected_part(out: &mut Out, rng: &mut Rng, thorough: bool) {
+	let heads: &[&str] = &["--- started\n", "--- 42\n", "--- \"just a string\"\n...\n", "# log follows\n--- null\n"];
+	let body = b"---\nid: 1234567\nname: \"some name\"\ntags: [1, 2, 3]\n".to_vec();
+	let lens: &[usize] = if thorough { &[3 << 20, 12 << 20, 96 << 20] } else { &[3 << 20, 24 << 20] };
+	for head in heads {
+		for to in STREAM_FMTS {
+			let packet = *rng.pick(&[4096usize, 65536, 1000, 1 << 20]);
+			let what = format!("detected stream starting {:?} then YAML mappings -> {}, a packet every {} bytes", head, to.name(), packet);
+			let mut seen: Vec<(usize, usize, usize, String)> = Vec::new();
+			for &total in lens {
+				let mut reader = HeadThenRepeat { head: head.as_bytes().to_vec(), body: body.clone(), total, pos: 0, packet };
+				let mut writer = LogWriter::new(None);
+				let base = alloc::reset_peak();
+				let r = catch(|| xt::translate_reader(&mut reader, None, to.xt(), &mut writer));
+				let peak = alloc::peak().saturating_sub(base);
+				let res = match r {
+					Ok(Ok(())) => "ok".to_string(),
+					Ok(Err(e)) => format!("error: {e}"),
+					Err(p) => format!("PANIC: {p}"),
+				};
+				seen.push((total, reader.pos, peak, res));
+			}
+			out.eval("undetected_bounded", &what, true);
+			out.count("memory.undetected");
+			let (l1, c1, p1, r1) = seen[0].clone();
+			out.sample(format!("{what}: {l1}-byte stream: consumed {c1}, peak heap {p1}, {r1}"));
+			for (l, c, p, _) in &seen {
+				out.counters.insert(format!("memory.undetected.consumed_bytes.{}.L{}", to.name(), l), *c as u64);
+				out.counters.insert(format!("memory.undetected.peak_bytes.{}.L{}", to.name(), l), *p as u64);
+			}
+			for (l2, c2, p2, r2) in seen[1..].iter().cloned() {
+				if r2 != r1 {
+					out.fail("undetected_bounded", "", format!("{what}: result `{r1}` for a {l1}-byte stream but `{r2}` for a {l2}-byte stream"));
+				} else if r1 != "ok" && (c2 > c1 + 128 * 1024 || p2 > p1 + allowance(body.len()) + 128 * 1024) {
+					// the stream was given up on: nothing of it beyond a fixed prefix may have been read or kept
+					out.fail(
+						"undetected_bounded",
+						"",
+						format!("{what}: a {l1}-byte stream: {c1} bytes consumed, peak live heap {p1}; a {l2}-byte stream: {c2} bytes consumed, peak live heap {p2} ({r2})"),
+					);
+				} else if r1 == "ok" && p2 > p1 + allowance(body.len()) {
+					out.fail("peak_flat_in_n", "", format!("{what}: peak live heap {p1} bytes for {l1} bytes of stream but {p2} for {l2}"));
+				}
+			}
+		}
+	}
+}
+
+// --------------------------------------------------------------------------- YAML streams in UTF-16 / UTF-32
+
+/// The same YAML stream re-encoded (enc 1 = UTF-16LE, 2 = UTF-32LE, 3 = UTF-16BE,
+/// 4 = UTF-32BE), with the document bounds moved to the new offsets.
+fn reencode_stream(s: &Stream, enc: u8, bom: bool) -> Option<Stream> {
+	let text = std::str::from_utf8(&s.data).ok()?;
+	let unit = if enc == 1 || enc == 3 { 2 } else { 4 };
+	// new offset of every UTF-8 offset that is a character boundary
+	let mut map = vec![usize::MAX; text.len() + 1];
+	let mut at = if bom { unit } else { 0 };
+	for (o, c) in text.char_indices() {
+		map[o] = at;
+		at += if unit == 2 { 2 * c.len_utf16() } else { 4 };
+	}
+	map[text.len()] = at;
+	let conv = |v: &Vec<usize>| -> Option<Vec<usize>> { v.iter().map(|o| map.get(*o).copied().filter(|n| *n != usize::MAX)).collect() };
+	let data = crate::engines::encoding::encode_text(text, enc, bom);
+	if data.len() != at {
+		return None;
+	}
+	Some(Stream {
+		fmt: s.fmt,
+		data: std::rc::Rc::new(data),
+		ends: conv(&s.ends)?,
+		starts: conv(&s.starts)?,
+		singles: s.singles.clone(),
+		scalar_free: s.scalar_free,
+		desc: format!("{} re-encoded as {}{}", s.desc, ["", "UTF-16LE", "UTF-32LE", "UTF-16BE", "UTF-32BE"][enc as usize], if bom { " with a BOM" } else { "" }),
+	})
+}
+
+/// The statement of the property on YAML streams that are not in UTF-8.
+/// xt's re-encoder fills the whole buffer libyaml hands it (16 KiB of UTF-8)
+/// before it returns, so the lag is bounded in BYTES there, not in documents:
+/// known finding K10. Anything worse than that bound is reported as such.
+fn utf_part(out: &mut Out, rng: &mut Rng, thorough: bool) {
+	for si in 0..(if thorough { 8 } else { 3 }) {
+		let n = match si % 3 {
+			0 => rng.range(300, 600),
+			1 => rng.range(20, 60),
+			_ => rng.range(1000, 3000),
+		} as usize;
+		let scalar_free = rng.chance(1, 2);
+		let s8 = gen_stream(rng, Fmt::Yaml, &StreamOpts { n, scalar_free, first_collection: true, big: 0, big_size: 0, plain: si % 3 == 1 });
+		if s8.ends.len() < 3 || !sorted(&s8.ends) {
+			continue;
+		}
+		for enc in 1..=4u8 {
+			let bom = rng.chance(1, 2);
+			let Some(s) = reencode_stream(&s8, enc, bom) else {
+				out.count("utf.skipped.not_reencodable");
+				continue;
+			};
+			let unit = if enc == 1 || enc == 3 { 2 } else { 4 };
+			let to = *rng.pick(&STREAM_FMTS);
+			let Ok(outs) = out_ends(&s8, to) else { continue };
+			for kind in [0u64, 1, 3, 5] {
+				let packets = packetisation(rng, &s, kind);
+				for detected in [false, true] {
+					let from = if detected { None } else { Some(Fmt::Yaml) };
+					let r = run_real(&s.data, &packets, from, to);
+					let what = format!("{} -> {} ({}), source {}", s.desc, to.name(), if detected { "detected" } else { "explicit" }, packets.describe());
+					if let Err(e) = &r.result {
+						if detected {
+							out.count("utf.detected.not_selected(K7 or scalar-first)");
+						} else {
+							out.fail("stream_translates", "", format!("{what}: translation fails: {e}"));
+						}
+						continue;
+					}
+					if Some(&r.written) != outs.last() {
+						out.fail("concat_of_singles", "", format!("{what}: {} bytes written, the single-document translations add up to {:?}", r.written, outs.last()));
+						continue;
+					}
+					out.eval("lag_ok_utf16_32", &what, true);
+					out.count(&format!("utf.runs.enc{enc}.{}", if detected { "detected" } else { "explicit" }));
+					// one buffer of re-encoded text + the BufReader in front of the source
+					let la = unit * 16384 + 8192 + 16;
+					let bad = first_bad(2, 0, &s.ends, &outs, &r.trace);
+					let bad_la = first_bad(2, la, &s.ends, &outs, &r.trace);
+					out.count(&format!("utf.lag.{}", if bad.is_none() { "within_k+2" } else if bad_la.is_none() { "within_one_buffer(K10)" } else { "MORE" }));
+					if let Some(i) = bad {
+						out.fail(
+							"lag_ok",
+							if bad_la.is_none() { "K10-yaml-utf16-32-encoder-fills-buffer" } else { "" },
+							format!(
+								"{what}: the reader is asked for data beyond document k+2 before document k is written: {}; ends={} outEnds={}{}",
+								describe_ev(&r.trace, i),
+								nats(&s.ends[..s.ends.len().min(12)]),
+								nats(&outs[..outs.len().min(12)]),
+								if bad_la.is_none() { String::new() } else { format!(" — and by more than one {la}-byte buffer of look-ahead") }
+							),
+						);
+					}
+				}
+			}
+		}
+	}
+}
+
 pub fn run(out: &mut Out, rng: &mut Rng, thorough: bool) {
 	lag_part(out, &mut rng.fork(), thorough);
 	memory_part(out, &mut rng.fork(), thorough);
+	undetected_part(out, &mut rng.fork(), thorough);
+	utf_part(out, &mut rng.fork(), thorough);
 }
